@@ -504,4 +504,91 @@ end
 theorem instGens_shape {w w' : World V} (h : SameShape w w') (i : Nat) : instGens w' i = instGens w i := by
   simp only [instGens, resolve, h.1, h.2.1]
 
+/-! ### deleting inspections from a history -/
+
+mutual
+/-- remove every inspection from a history (also inside contexts) -/
+def stripOp : Op → List Op
+  | .inspect _ _ => []
+  | .ctx b => [.ctx (stripOps b)]
+  | .setTime t => [.setTime t]
+  | .advance d => [.advance d]
+  | .setStep s => [.setStep s]
+  | .setUntil u => [.setUntil u]
+  | .read tg p => [.read tg p]
+  | .force tg p => [.force tg p]
+  | .push i => [.push i]
+  | .pop i => [.pop i]
+  | .assign tg p s => [.assign tg p s]
+  | .newInst => [.newInst]
+  | .raise e => [.raise e]
+def stripOps : List Op → List Op
+  | [] => []
+  | o :: os => stripOp o ++ stripOps os
+end
+
+theorem inspectSlot_ok_or_malformed (w : World V) (tg : Target) (p : Nat) :
+    (∃ r, inspectSlot w tg p = .ok r) ∨ inspectSlot w tg p = .raised .malformed := by
+  unfold inspectSlot
+  split
+  · exact Or.inl ⟨_, rfl⟩
+  · split
+    · exact Or.inr rfl
+    · exact Or.inl ⟨_, rfl⟩
+  · exact Or.inr rfl
+
+mutual
+theorem strip_op (env : Env H V) : ∀ (o : Op) (rest : List Op) (w : World V),
+    (runOp env o w).1 ≠ .raised .malformed →
+    runOps env (stripOp o ++ rest) w = runOps env (o :: rest) w
+  | .inspect tg p, rest, w, h => by
+    simp only [stripOp, List.nil_append, runOps, runOp]
+    rcases inspectSlot_ok_or_malformed w tg p with ⟨r, hr⟩ | hr
+    · simp [hr]
+    · simp [runOp, hr] at h
+  | .ctx b, rest, w, h => by
+    have hp : (runOps env b { w with clock := w.clock.enter }).2.clock.pushed
+        = (w.clock.time, w.clock.timestep, w.clock.untl) :: w.clock.pushed := by
+      rw [(runOps_pushed env b _).1]; rfl
+    have hb : (runOps env b { w with clock := w.clock.enter }).1 ≠ .raised .malformed := by
+      intro e
+      apply h
+      simp only [runOp]
+      rw [(exitCtx_clock _ _ _ _ _ hp).2, e]
+    have ih := strip_ops env b { w with clock := w.clock.enter } hb
+    simp only [stripOp, List.cons_append, List.nil_append, runOps, runOp, ih]
+  | .setTime _, _, _, _ => rfl
+  | .advance _, _, _, _ => rfl
+  | .setStep _, _, _, _ => rfl
+  | .setUntil _, _, _, _ => rfl
+  | .read _ _, _, _, _ => rfl
+  | .force _ _, _, _, _ => rfl
+  | .push _, _, _, _ => rfl
+  | .pop _, _, _, _ => rfl
+  | .assign _ _ _, _, _, _ => rfl
+  | .newInst, _, _, _ => rfl
+  | .raise _, _, _, _ => rfl
+theorem strip_ops (env : Env H V) : ∀ (os : List Op) (w : World V),
+    (runOps env os w).1 ≠ .raised .malformed →
+    runOps env (stripOps os) w = runOps env os w
+  | [], _, _ => rfl
+  | o :: os, w, h => by
+    have ho : (runOp env o w).1 ≠ .raised .malformed := by
+      intro e
+      apply h
+      simp only [runOps]
+      split
+      · rename_i heq; rw [heq] at e; simp at e
+      · rename_i heq; rw [heq] at e; simpa using e
+    simp only [stripOps]
+    rw [strip_op env o (stripOps os) w ho]
+    simp only [runOps] at h ⊢
+    split
+    · rename_i r w' heq
+      rw [heq] at h
+      exact strip_ops env os w' h
+    · rfl
+end
+
+
 end ParamVerif.TimeDyn
